@@ -35,6 +35,7 @@ def make_ctx(d):
     sub.mkdir(parents=True, exist_ok=True)
     ctx = Wtp(db_path=str(sub / "pages.db"), quiet=True, quiet_output=True)
     ctx.add_page("Template:T1", 10, body="({{{1}}})")
+    ctx.add_page("Template:TU", 10, body="{{uc:{{{1}}}}}")
     ctx.db_conn.commit()
     return ctx
 
@@ -86,9 +87,12 @@ def run_nowiki(chunk):
                     ctx.start_page("Pg")
                     ob["out"] = ctx.expand(src, template_fn=tfn)
                     ob["calls"] = list(calls)
-                    ctx.start_page("Pg")
-                    root = ctx.parse(src)
-                    ob["leaf"], ob["why"] = leaf_at(root, c["path"])
+                    if c["path"] == ["SKIP"]:
+                        ob["leaf"], ob["why"] = None, None
+                    else:
+                        ctx.start_page("Pg")
+                        root = ctx.parse(src)
+                        ob["leaf"], ob["why"] = leaf_at(root, c["path"])
                     if c["ctx"] == "top":
                         # sixth context: the same text as the body of a template
                         ctx.add_page("Template:B", 10, body=src)
@@ -163,11 +167,11 @@ def judge_nowiki(o, c, ob):
     elif "body_out" in ob and ob["body_out"] != exp:
         o.violation({**case, "template_body": ob["src"], "got": ob["body_out"], "expected": exp},
                     f"a template whose body is {ob['src']!r} expands to {ob['body_out']!r}; nowiki content must come out as {exp!r}", cls="expand-body")
-    want_calls = ["T1"] if c["ctx"] == "targ" else []
+    want_calls = {"targ": ["T1"], "ucbody": ["TU"]}.get(c["ctx"], [])
     if ob["calls"] != want_calls:
         o.violation({**case, "template_fn_calls": ob["calls"]}, f"template calls {ob['calls']!r} were made while expanding {ob['src']!r}: something inside <nowiki> was expanded", cls="expanded-inside")
     leaf = text(c["leaf"])
-    if ob["leaf"] != leaf:
+    if c["path"] != ["SKIP"] and ob["leaf"] != leaf:
         o.violation({**case, "leaf": ob["leaf"], "expected_leaf": leaf, "detail": ob["why"]},
                     f"parse({ob['src']!r}) does not yield the single text node {leaf!r} at {'/'.join(c['path']) or 'ROOT'}: {ob['why'] or ob['leaf']!r}", cls="parse-" + c["ctx"])
     o.shape((c["ctx"], text(c["c"])))
